@@ -38,5 +38,7 @@ pub mod c23;
 pub mod c24;
 #[cfg(kani)]
 pub mod c25;
+#[cfg(kani)]
+pub mod c29;
 #[cfg(all(kani, test))]
 mod playback_gen;
